@@ -299,10 +299,24 @@ class Body:
         return t
 
     def call_term(self, t, depth=0, stack=()):
+        """('call', name, args) for calls without `&mut` arguments (a function of its arguments as far as
+        the rules are concerned); calls that receive a `&mut` additionally carry their site (block index),
+        because two such calls with equal arguments are different values (cursor reads, iterator next)."""
         f = t["f"]
         name = callee_name(f)
         args = tuple(self.operand_term(a, depth + 1, stack) for a in t["args"])
+        if any(_has_refmut(a) for a in args):
+            return ("call", name, args, self._site_of(t))
         return ("call", name, args)
+
+    def _site_of(self, t):
+        m = getattr(self, "_sites", None)
+        if m is None:
+            m = {}
+            for bi, blk in enumerate(self.blocks):
+                m[id(blk["t"])] = bi
+            self._sites = m
+        return m.get(id(t), -1)
 
     def place_term(self, pl, depth=0, stack=()):
         t = self.local_term(pl["l"], depth, stack)
@@ -488,11 +502,34 @@ class Body:
 
 
 # -------------------------------------------------------------------- helpers
+# traits for which call names keep the concrete self type of the resolved impl
+CONCRETE_TRAITS = {
+    "chia_traits::streamable::Streamable",
+    "chia_traits::to_json_dict::ToJsonDict",
+    "chia_traits::from_json_dict::FromJsonDict",
+    "clvm_traits::to_clvm::ToClvm",
+    "clvm_traits::from_clvm::FromClvm",
+}
+STREAMABLE_LIKE_TRAITS_SELF = {}
+
+
 def callee_name(f):
     st = f.get("status")
     if st == "indirect":
         return "<indirect>"
-    return f.get("res") or f.get("def") or "?"
+    if f.get("trait") and st != "resolved" and f.get("self_ty"):
+        extra = f.get("args", [])[1:]
+        # trait-level generic args come first; method-level (turbofish) ones are what is left
+        tf = ("::<%s>" % ", ".join(extra)) if extra else ""
+        return "<%s as %s>::%s%s" % (f["self_ty"], f["trait"], f.get("method"), tf)
+    if f.get("trait") and f.get("res_full") and f.get("self_ty") and f["self_ty"] in STREAMABLE_LIKE_TRAITS_SELF.get(f["trait"], (f["self_ty"],)):
+        # trait method resolved to an impl: keep the concrete self type (BytesImpl<32>, not BytesImpl<N>)
+        if f["trait"] in CONCRETE_TRAITS:
+            return f["res_full"]
+    n = f.get("res") or f.get("def") or "?"
+    if n in ("core::mem::size_of", "core::mem::align_of") and f.get("args"):
+        return "%s::<%s>" % (n, ", ".join(f["args"]))
+    return n
 
 
 def const_term(c):
@@ -506,7 +543,15 @@ def const_term(c):
         return ("cparam", c["param"])
     if "bytes" in c:
         return ("cb", c["ty"], tuple(c["bytes"]), c.get("name"))
+    if "deref_v" in c:
+        return ("ref", ("c", c["deref_ty"], int(c["deref_v"]), c.get("name")))
     return ("cs", c["ty"], c.get("s"), c.get("name"))
+
+
+def _has_refmut(t):
+    while isinstance(t, tuple) and t and t[0] == "mutated":
+        t = t[1]
+    return isinstance(t, tuple) and bool(t) and t[0] == "refmut"
 
 
 def strip_ref(t):
